@@ -629,4 +629,91 @@ def c16(ctx):
                   exhaustive=True)
 
 
-CHECKS = {"C15": c15, "C16": c16, "C17": c17, "C18": c18, "C14": c14, "C13": c13, "C07": c07, "C08": c08, "C09": c09, "C10": c10, "C11": c11, "C03": c03, "C06": c06, "C01": c01, "C02": c02, "C04": c04, "C05": c05}
+def c12(ctx):
+    q = ctx.quick
+    vecs, _ = tlc_mc(ctx, "MC_Order", invariants=["HasNearCollisions", "NoNaN", "Emit"], workers=4, timeout=1200)
+    ev1 = hs_run(ctx, [{"op": "ord.universe", "values": [x["v"] for x in vecs]}], "gen")
+    ctx.bads += tlc_trace_stateful(ctx, "Trace_Order", ev1, "none", shards=1)
+    note_events(ctx, ev1, key=lambda e: ["g", e.get("idx")], trivial=lambda e: e.get("op") != "ord.row")
+    n = 6 if q else 200
+    ev2 = hs_rec(ctx, "order", n)
+    evs = read_ndjson(ev2)
+    # one TLC per universe group: cut after every ord.end
+    groups, cur = [], []
+    for e in evs:
+        cur.append(e)
+        if e["op"] == "ord.end":
+            groups.append(cur)
+            cur = []
+    import concurrent.futures
+    files = []
+    for g in groups:
+        f = ctx.fresh("uni") + ".ndjson"
+        write_ndjson(f, g)
+        files.append(f)
+    with concurrent.futures.ThreadPoolExecutor(max_workers=14) as ex:
+        for r in ex.map(lambda f: tlc_trace(ctx, "Trace_Order", f, 1), files):
+            ctx.bads += r
+    note_events(ctx, ev2, key=lambda e: ["r", e.get("i")], trivial=lambda e: e.get("op") != "ord.row")
+    nvals = len(vecs)
+    ctx.evaluations += nvals * nvals + n * 70 * 70
+    return finish(ctx,
+                  "GEN: MC_Order supplies a universe of %d values with the near-collisions the property lists (+0/-0, same magnitude with m / s "
+                  "/ kW / no unit, Refs differing only in display name, dicts differing in one key or one value, list prefixes, equal "
+                  "instants in different zones, the same payload as Str / Uri / Symbol / XStr, grids differing only in meta / column meta / "
+                  "ver; TLC checks the universe really contains them and no NaN); the harness evaluates ==, !=, cmp, partial_cmp on every "
+                  "ordered pair, two independently keyed hashes and clone on every element, and HashSet / BTreeSet / sort+dedup sizes; "
+                  "Trace_Order accumulates the matrices and checks every law by exhaustive quantification over all pairs and triples. "
+                  "REC: %d random universes of 70 values (with planted duplicates). distinct = matrix rows" % (nvals, n),
+                  ["NaN excluded as the property says", "hash equality is required only for equal values"])
+
+
+def c20(ctx):
+    q = ctx.quick
+    vm, _ = tlc_mc(ctx, "MC_Dis", consts={"Mode": '"macro"', "MaxLen": 4 if q else 5}, invariants=["MacroLaws", "Emit"], workers=8, timeout=3000)
+    vr, _ = tlc_mc(ctx, "MC_Dis", consts={"Mode": '"rec"', "MaxLen": 1}, invariants=["Emit"], workers=8, timeout=3000)
+    ev1 = hs_run(ctx, strip_numerals(vm + vr), "gen")
+    ctx.bads += tlc_trace(ctx, "Trace_Dis", ev1, shards=14)
+    note_events(ctx, ev1, key=lambda e: [e.get("pattern"), e.get("rec"), len(e.get("tags", []))])
+    n = 3000 if q else 60000
+    ev2 = hs_rec(ctx, "dis", n)
+    ctx.bads += tlc_trace(ctx, "Trace_Dis", ev2, shards=14)
+    note_events(ctx, ev2, key=lambda e: ["r", e.get("i")])
+    return finish(ctx,
+                  "GEN: every macro pattern of length <= %d over the alphabet $ { } < > a B 1 _ space e-acute (TLC checks on each: text without $ "
+                  "unchanged, verbatim when nothing resolves, at most the two admissible outputs), each substituted by libhaystack against "
+                  "a scope where the referenced tags / keys exist and against an empty scope; 12160 records: all 2^8 presence patterns of "
+                  "dis disMacro disKey name def tag navName id with Str / macro Str / Number / Ref with and without dis / Marker / Bool in "
+                  "the two highest-priority present tags, through HaystackDict::dis and dict_to_dis with a localiser and a default. REC: %d "
+                  "longer random patterns and records with values of every kind. Trace_Dis requires the result to be one of the admissible "
+                  "outputs of Dis.tla (one-character names deliberately open). distinct = distinct patterns / records" % (4 if q else 5, n),
+                  ["display text of a non-Str value is libhaystack's Display, checked against the value by DisTextOk (Zinc reader)"])
+
+
+def c19(ctx):
+    q = ctx.quick
+    vc, _ = tlc_mc(ctx, "MC_Kinds", consts={"Mode": '"code"', "MaxRows": 1}, invariants=["TablesOk", "GridLaws", "Emit"], workers=4, timeout=1200)
+    vn, _ = tlc_mc(ctx, "MC_Kinds", consts={"Mode": '"name"', "MaxRows": 1}, invariants=["TablesOk", "Emit"], workers=4, timeout=1200)
+    vg, _ = tlc_mc(ctx, "MC_Kinds", consts={"Mode": '"rows"', "MaxRows": 2 if q else 3}, invariants=["GridLaws", "Emit"], workers=8, timeout=3000)
+    vv, _ = tlc_mc(ctx, "MC_Order", invariants=["NoNaN", "Emit"], workers=4, timeout=1200)
+    vals = [{"op": "kind.value", "v": x["v"]} for x in vv]
+    ev1 = hs_run(ctx, vc + vn + [{"op": "kind.endmark"}] + vals + vg, "gen")
+    ctx.bads += tlc_trace_stateful(ctx, "Trace_Kinds", ev1, "none", shards=1)
+    note_events(ctx, ev1, key=lambda e: [e.get("op"), e.get("code"), e.get("name"), e.get("v"), e.get("rows")])
+    n = 2000 if q else 40000
+    ev2 = hs_rec(ctx, "kinds", n)
+    ctx.bads += tlc_trace(ctx, "Trace_Kinds", ev2, shards=14)
+    note_events(ctx, ev2, key=lambda e: ["r", e.get("i")])
+    return finish(ctx,
+                  "exhaustive: all 256 u8 codes (TryFrom<u8>, as u8, From<kind> for &str, Display, TryFrom<&str> must commute), all 18 kind names "
+                  "and 9 near misses, accumulated into tables that must be one-to-one onto the 18 names; every value of the C12 universe: "
+                  "exactly one of the 18 predicates, kind name, every TryFrom<&Value> and every typed dict getter / has_* succeeds exactly "
+                  "for the matching kind and returns the stored payload; every list of <= %d records over the keys a b c B e-acute (TLC "
+                  "checks the specification's GridFromDicts: rows kept, columns sorted, duplicate-free, covering) through "
+                  "Grid::make_from_dicts, Value::make_grid_from_dicts and make_from_dicts_with_meta. REC: %d random values, %d random lists "
+                  "of 0-30 records. distinct = distinct cases" % (2 if q else 3, n, n // 4),
+                  ["the numeric codes themselves are not prescribed, only that code / enumeration / name are one-to-one and commute"],
+                  exhaustive=True)
+
+
+CHECKS = {"C19": c19, "C20": c20, "C12": c12, "C15": c15, "C16": c16, "C17": c17, "C18": c18, "C14": c14, "C13": c13, "C07": c07, "C08": c08, "C09": c09, "C10": c10, "C11": c11, "C03": c03, "C06": c06, "C01": c01, "C02": c02, "C04": c04, "C05": c05}
